@@ -23,21 +23,25 @@ STATEMENT_STATUS: Dict[str, str] = {
     "C13_family_str_value": "proved", "C13_family_list_value": "proved", "C13_family_dict_value": "proved",
     "C13_family_stream_value": "proved", "C13_family_uint_value": "proved",
     "C13_family_safe_int": "proved (uses the regenerated except clause)", "C13_family_safe_float": "proved",
-    "C13_safe_rect_list_statement": "full statement: FALSE on the code (PDFStream value) - counter-example proved",
-    "C13_safe_rect_list_cex": "proved counter-example, replayed on the implementation (open finding)",
-    "C13_family_safe_rect_list_partial": "partial: excludes stream values",
+    "C13_family_safe_rect_list": "proved for every value (round 1: counter-example on stream values; fixed in the repo, except clause regenerated)",
     "C13_fuel_xref_chain": "proved: recursion depth <= number of sections + 1, incl. Prev/XRefStm cycles",
     "C13_family_xref_chain": "proved",
     "C13_fuel_pagetree": "proved: recursion depth <= number of objects + 2 for every graph (Kids cycles, direct nodes, ints)",
     "C13_family_pagetree": "proved",
-    "C13_get_widths_work_statement": "full statement (work linear in the W array): FALSE on the code - counter-example proved",
-    "C13_get_widths_work_cex": "proved counter-example (open finding budget-replace)",
-    "resolve_all depth bound, get_widths family": "not proved (modelled and correspondence-checked only; future work)",
+    "C13_family_get_widths": "proved",
+    "C13_fuel_get_widths": "proved: work <= 65536 per element of the W array + lengths of the copied arrays (MAX_CID regenerated; round 1: proved counter-example, fixed in the repo)",
+    "C13_fuel_resolve_all": "proved: recursion depth <= (objects + 1) * (deepest nesting + 2) + nesting of the value + 2 for every graph",
+    "C13_family_resolve_all": "proved",
     "parser, filters, fonts/CMaps, interpreter, layout, converters, encryption": "not modelled: fault enumeration only (search, not proof)",
 }
 
 # (class, exception, innermost function, fault kind, note)
 OPEN: List[Tuple[str, str, str, str, str]] = [
+]
+
+# Findings of round 1 that no longer occur (full enumeration on the integrated tree + round-2 fixes);
+# kept for the record only - they are NOT classifiers any more: a recurrence is a VIOLATION.
+CLOSED_ROUND2: List[Tuple[str, str, str, str, str]] = [
     ('budget', '', '', 'replace', "e.g. seed 'fonts', replace at obj 6 W/1 -> int; 12 cases in the full enumeration"),
     ('internal', 'AttributeError', 'pdffont.PDFCIDFont.__init__', 'replace', "e.g. seed 'fonts', replace at obj 21 CIDSystemInfo/Ordering -> int: 'int' object has no attribute 'decode'; 396 cases in the full enumeration"),
     ('internal', 'AttributeError', 'utils.enc', 'replace', "e.g. seed 'fonts', replace at obj 10 FontName -> int: 'int' object has no attribute 'replace'; 76 cases in the full enumeration"),
@@ -123,15 +127,31 @@ def fragment() -> Dict[str, Any]:
 
 
 FIXED: List[str] = [
-    "fixed: property=C13 9f77765 resolve1 looped forever on a circular chain of indirect references (6 0 obj 6 0 R, 2-cycles)",
-    "fixed: property=C13 3e3f6f0 resolve_all recursed without end on circular references (Parent back-pointers reached through a damaged FontBBox/Widths)",
-    "fixed: property=C13 2f88717 PDFStream.decode leaked decoder-internal errors (binascii.Error, ValueError, IndexError, RuntimeError/StopIteration, TypeError) on damaged LZW/ASCII85/ASCIIHex/RunLength data, predictors and DecodeParms",
-    "fixed: property=C13 3d4d80b SC/SCN/sc/scn with too few operands raised IndexError / TypeError",
-    "fixed: property=C13 8f69ed0 ill-typed MediaBox/CropBox leaked TypeError (parse_rect, _parse_mediabox, _parse_cropbox)",
-    "fixed: property=C13 01c5bbb page-tree node that is not an indirect reference raised AttributeError in create_pages",
-    "fixed: property=C13 fd2e625 circular /Prev or /XRefStm chain exhausted the recursion limit in read_xref_from",
-    "fixed: property=C13 badb0ce odd-length string shown in an Identity-H/V font raised struct.error (IdentityCMap.decode)",
-    "fixed: property=C13 dd5bac2 negative /Prev or /XRefStm offset leaked ValueError from seek",
+    "fixed: property=C13 be736a1 resolve1 looped forever on a circular chain of indirect references (6 0 obj 6 0 R, 2-cycles)",
+    "fixed: property=C13 0293c3a resolve_all recursed without end on circular references",
+    "fixed: property=C13 46a54ec PDFStream.decode leaked decoder-internal errors (binascii.Error, ValueError, IndexError, RuntimeError/StopIteration, TypeError) on damaged LZW/ASCII85/ASCIIHex/RunLength data, predictors and DecodeParms",
+    "fixed: property=C13 cd9cde1 SC/SCN/sc/scn with too few operands raised IndexError / TypeError",
+    "fixed: property=C13 1c6bc91 ill-typed MediaBox/CropBox leaked TypeError (parse_rect, _parse_mediabox, _parse_cropbox)",
+    "fixed: property=C13 57dff9f page-tree node that is not an indirect reference raised AttributeError in create_pages",
+    "fixed: property=C13 cab1b11 circular /Prev or /XRefStm chain exhausted the recursion limit in read_xref_from",
+    "fixed: property=C13 f7b1457 negative /Prev or /XRefStm offset leaked ValueError from seek",
+    "fixed: property=C13 797bef9 ill-typed /W, /Index, /Size of a cross-reference stream leaked TypeError/ValueError/KeyError (PDFXRefStream.load/get_pos/get_objids); /Index beyond the data",
+    "fixed: property=C13 ddcfb4c R keyword with fewer than two operands raised ValueError (PDFStreamParser.do_keyword)",
+    "fixed: property=C13 395e0b9 object stream with ill-typed /N raised TypeError (_getobj_objstm)",
+    "fixed: property=C13 3f7c362 object stream placed inside itself by damaged xref entries: RecursionError in getobj",
+    "fixed: property=C13 4cf1737 form XObject with ill-typed BBox/Matrix raised TypeError/ValueError (LTFigure, mult_matrix)",
+    "fixed: property=C13 ada9f4a form XObject invoking itself: RecursionError",
+    "fixed: property=C13 ab04902 Type0 font without DescendantFonts (KeyError/AssertionError) or with a Type0 descendant (RecursionError)",
+    "fixed: property=C13 a89708e Type3 font without FontBBox / ill-typed FontMatrix raised KeyError/TypeError/ValueError",
+    "fixed: property=C13 30f5af0 W/W2 ranges beyond the CID range cost unbounded work; ill-typed W2 entries raised TypeError (get_widths2, LTChar)",
+    "fixed: property=C13 40304a7 ill-typed CIDSystemInfo/Encoding/DW/DW2 of a CID font raised AttributeError/KeyError/TypeError/ValueError",
+    "fixed: property=C13 22734f2 def/usecmap/put with too few operands raised ValueError (CMapParser, Type1FontHeaderParser)",
+    "fixed: property=C13 2a6bae3 Type1 font program without Length1 raised KeyError",
+    "fixed: property=C13 964d82d FontName that is not a name leaked AttributeError from utils.enc (XML converter)",
+    "fixed: property=C13 1ebe933 encryption dictionary lacking R/P/O/U, out-of-range P, ill-typed ID leaked KeyError/struct.error/TypeError/IndexError",
+    "fixed: property=C13 31c56c2 safe_rect_list raised KeyError for a stream value",
+    "fixed: property=C13 03ebcc6 ICCBased colour space without N raised KeyError",
+    "fixed: property=C13 6c31e54 resolve_all rewrote cached dictionaries in place (cyclic structures -> RecursionError)",
 ]
 
 if __name__ == "__main__":
